@@ -209,6 +209,8 @@ def scenario2d(rng, allper=False, nmax=6, big=0.0):
     flux = str(rng.choice(["centered", "hlle"]))
     disc = md.fvm2d(model, m, num, bclist=bcl, numflux=flux)
     f = ffield.fdata(model, m, model.prim2cons(prim))
+    if rng.random() < 0.15:
+        gen.exotic_layout(f, int(rng.integers(1, 4)))          # same values, another memory layout (Fortran order / strided views)
     desc = {"model": "euler2d", "gamma": gam, "mesh": mdesc, "recon": rname, "flux": flux,
             "bc": {t: {kk: vv for kk, vv in d.items() if kk != "prim"} for t, d in bcl.items()}, "prim": prim}
     return m, model, disc, f, desc
